@@ -29,6 +29,7 @@ FAMILIES = {
     "deferred": {"src": "deferred.cpp"},
     "c14": {"src": "c14.cpp"},
     "containers": {"src": "containers.cpp"},
+    "atomicreg": {"src": "atomicreg.cpp"},
 }
 
 EXPLORATION_NOTE = ("Trusted base: the vrt runtime's model of std::mutex/timed_mutex/shared_mutex/shared_timed_mutex/condition_variable/atomic "
@@ -202,7 +203,9 @@ PROPS = {
                 "schedules; a Tracked payload makes torn copies observable. Exploration only.",
         "assumptions": ["values from a small domain", "2-4 fibers x <= 6 operations"],
         "stages": [{"family": "locks", "flavour": "plain", "target": "C15g", "cases": (300000, 4000000), "maxsec": (40, 400)},
-                   {"family": "deferred", "flavour": "plain", "target": "C15d", "cases": (300000, 4000000), "maxsec": (30, 300)}],
+                   {"family": "deferred", "flavour": "plain", "target": "C15d", "cases": (300000, 4000000), "maxsec": (30, 300)},
+                   {"family": "atomicreg", "flavour": "plain", "target": "C15as", "cases": (400000, 4000000), "maxsec": (20, 200)},
+                   {"family": "atomicreg", "flavour": "plain", "target": "C15a", "cases": (400000, 6000000), "maxsec": (30, 300)}],
     },
     "C03": {
         "level": "exploration",
@@ -217,6 +220,25 @@ PROPS = {
             {"family": "lrcow", "flavour": "plain", "target": "C03", "cases": (400000, 6000000), "maxsec": (40, 400)},
         ],
     },
+}
+
+PROPS["C20"] = {
+    "level": "fault_enumeration",
+    "technique": "fault-plan generation: the k-th invocation of user code (functor / payload copy / assignment / comparison / callback / predicate) throws, combined with generated programs and schedules; oracle = no modelled mutex held after the throw, other fibers keep acquiring, final acquisition succeeds, lr_guarded all-or-nothing chain check, documented propagation/capture",
+    "design_ref": "DESIGN.md §5 C20",
+    "text": "Every concurrent family is re-run with a generated fault plan (which invocation of user code throws). After the injected throw the throwing fiber must hold no modelled mutex, the exception must "
+            "surface where documented (propagate from modify/read/store/load/cow::lock/SOH predicates, be captured in modify_async futures, be swallowed by destroyObjects), the wrapper stays usable, and "
+            "lr_guarded is all-or-nothing (first-application throw: absent; second-application throw: present; both copies agree). Fault positions are generated, not exhaustively enumerated.",
+    "assumptions": ["faults inside lr_guarded's own rollback copy are excluded (documented as indeterminate)", "fault positions k in 1..12 per case"],
+    "stages": [
+        {"family": "lrcow", "flavour": "plain", "target": "C20lr", "cases": (300000, 4000000), "maxsec": (25, 300)},
+        {"family": "locks", "flavour": "plain", "target": "C20g", "cases": (300000, 4000000), "maxsec": (25, 300)},
+        {"family": "atomicreg", "flavour": "plain", "target": "C20a", "cases": (200000, 3000000), "maxsec": (20, 200)},
+        {"family": "lrcow", "flavour": "plain", "target": "C20cow", "cases": (200000, 3000000), "maxsec": (25, 300)},
+        {"family": "deferred", "flavour": "plain", "target": "C20d", "cases": (200000, 3000000), "maxsec": (25, 300)},
+        {"family": "containers", "flavour": "plain", "target": "C20dd", "cases": (200000, 3000000), "maxsec": (25, 300)},
+        {"family": "containers", "flavour": "plain", "target": "C20soh", "cases": (200000, 3000000), "maxsec": (25, 300)},
+    ],
 }
 
 ALL_IDS = ["C%02d" % i for i in range(1, 21)]
